@@ -268,7 +268,12 @@ fn run(ctx: &Ctx) {
     if !ctx.run_prop("with_asset_events", RULE, n(500, 60_000), strat_events, check) {
         return;
     }
-    ctx.run_prop("shuffled_lines", RULE, n(600, 80_000), strat_shuffled, check);
+    if !ctx.run_prop("shuffled_lines", RULE, n(600, 80_000), strat_shuffled, check) {
+        return;
+    }
+    if ctx.tier == Tier::Thorough {
+        ctx.run_fuzz("libfuzzer_ledger", "ledger", (60_000.0 * ctx.scale) as u64, 1200, "coverage-guided libFuzzer campaign: bytes decoded into a ledger recipe (structure-aware), the proptest oracles of C01/C02/C03/C05 inside the target; evaluations = executions, distinct_nontrivial = distinct corpus entries (inputs that reached new coverage)");
+    }
 }
 
 fn replay(check_name: &str, case: &Value) -> Option<Verdict> {
